@@ -573,6 +573,9 @@ def _history_cases(tier, rng):
         cyc = rng.sample(roots, k)
         yield {"dag": d, "cache_type": rng.choice(("simple", "lru", "hybrid")),
                "perm": {a: b for a, b in zip(cyc, cyc[1:] + cyc[:1])}, "how": rng.choice(("pipeline", "pipeline", "functions"))}
+        # ... the functions came into the pipeline through replace (each swapped for a copy of itself after the calls)
+        yield {"dag": d, "cache_type": rng.choice(("simple", "lru", "hybrid")), "swapped_in": True,
+               "perm": {a: b for a, b in zip(cyc, cyc[1:] + cyc[:1])}, "how": "functions"}
         # ... and a permutation of the names of outputs that no function consumes (the cache is keyed by output names too)
         consumed = {q for f in d["funcs"] for q in f["params"]}
         free = sorted(o for f in d["funcs"] if len(f["outputs"]) == 1 for o in f["outputs"] if o not in consumed)
@@ -614,6 +617,14 @@ def _check_history_in(case, d, perm, out_perm, names, kw):
                 return []  # C02/C09's business
         except Exception:  # noqa: BLE001
             return []
+    if case.get("swapped_in"):
+        try:
+            for f in list(p.functions):
+                p.replace(f.copy())
+        except Exception as e:  # noqa: BLE001
+            if "Inconsistent default values" in str(e):
+                return []  # replace = drop + add: without the producer its consumers disagree on a default (C12's rule)
+            return [f"replacing a function by a copy of itself raised {type(e).__name__}: {str(e)[:150]}"]
     try:
         if case["how"] == "pipeline":
             p.update_renames({**perm, **out_perm}, update_from="current")
